@@ -774,6 +774,47 @@ example : (streamRead false [115, 10, 1, 2, 3] 0 (some (-4))).map Prod.fst = .ok
 example : (streamRead false [115, 10, 1, 2, 3] 0 (some 1000000)).map Prod.fst = .ok [1, 2, 3] := by decide
 example : (streamRead false [115, 10, 1, 2, 3] 0 none).map Prod.fst = .ok [] := by decide
 
+/-! ## Round 6: `Length` direct or indirect -/
+
+/-- `Length` direct or indirect: `int_value(dic["Length"])` gives the same value for the integer `n`
+written in the dictionary and for a reference to an object that holds `n` (whatever else the file
+defines); a reference to a missing object, to itself or to a non-integer gives 0 (non-strict). -/
+theorem length_direct_indirect (objs : List (Nat × LenObj)) (id : Nat) (n : Int)
+    (h : objs.find? (fun p => p.1 == id) = some (id, .int n)) :
+    lengthValue objs (some (.ref id)) = lengthValue objs (some (.int n)) ∧
+    lengthValue objs (some (.int n)) = some n ∧
+    (∀ objs' id', objs'.find? (fun p => p.1 == id') = none → lengthValue objs' (some (.ref id')) = some 0) ∧
+    lengthValue [(id, .ref id)] (some (.ref id)) = some 0 ∧
+    lengthValue objs (some .other) = some 0 ∧ lengthValue objs none = none := by
+  refine ⟨?_, ?_, fun o i hi => lengthValue_missing_obj o i hi, ?_, ?_, rfl⟩
+  · rw [lengthValue_indirect objs id n h]; simp [lengthValue, resolveLen]
+  · simp [lengthValue, resolveLen]
+  · simp [lengthValue, resolveLen]
+  · simp [lengthValue, resolveLen]
+
+/-- The resolution loop's fuel suffices. -/
+theorem length_resolve_fuel (objs : List (Nat × LenObj)) (x : LenObj) (k : Nat) :
+    resolveLen (objs.length + 1 + k) objs x = resolveLen (objs.length + 1) objs x :=
+  resolveLen_fuel _ _ objs x (by omega) (by omega)
+
+/-- `stream_read_exact` with an indirect `Length`. -/
+theorem stream_read_indirect (objs : List (Nat × LenObj)) (id : Nat)
+    (pre kw eol0 d tail q eol rest : Bytes)
+    (hlen : objs.find? (fun p => p.1 == id) = some (id, .int d.length))
+    (hkw : ∀ c ∈ kw, c ≠ 10 ∧ c ≠ 13)
+    (heol0 : EolOk eol0 (d ++ (tail ++ ENDSTREAM_MARK ++ q ++ eol ++ rest)))
+    (htail : findSub ENDSTREAM_MARK (tail ++ ENDSTREAM_MARK) = some tail.length)
+    (hq : ∀ c ∈ q, c ≠ 10 ∧ c ≠ 13) (heol : EolOk eol rest) :
+    streamRead false (pre ++ kw ++ eol0 ++ (d ++ (tail ++ ENDSTREAM_MARK ++ q ++ eol ++ rest))) pre.length
+        (lengthValue objs (some (.ref id)))
+      = .ok (d, pre.length + kw.length + eol0.length + d.length + tail.length) := by
+  rw [lengthValue_indirect objs id _ hlen]
+  exact stream_read_exact pre kw eol0 d tail q eol rest hkw heol0 htail hq heol
+
+example : lengthValue [(7, .ref 8), (8, .ref 9), (9, .int 5)] (some (.ref 7)) = some 5 := by decide
+example : lengthValue [(7, .ref 8), (8, .ref 7)] (some (.ref 7)) = some 0 := by decide
+example : lengthValue [(7, .int (-3)), (7, .int 4)] (some (.ref 7)) = some (-3) := by decide
+
 /-! ## Round 6: from the file to the payload -/
 
 /-- The property in one statement, from the bytes of the file to the payload: for every chain of
